@@ -1,4 +1,5 @@
 """C16 Include graphs: termination, reachability, links, single indexing — structural clauses."""
+import json
 import re
 
 from .. import cfg, prov, paths, brackets
@@ -151,6 +152,7 @@ def run(ck, prog):
               "on the resolved branch every path records (include statement -> file) in the map before the next statement",
               msg="collect_sources: a resolved include statement can be skipped without an entry in the resolved-include "
                   "map (that statement then has no link and is reported 'include file not found')")
+    include_targets(ck, prog, b, "R16.6")
     sets = [(i, t) for i, t in b.calls() if (t["f"].get("decl") or Body.callee(t) or "").endswith("set_resolved_include_map")]
     ok = bool(sets)
     for i, t in sets:
@@ -347,3 +349,34 @@ def descent_guard(ck, prog, cg, rule):
           msg="Include::index descends into the included file without a visited-set test keyed by that file: an "
               "include cycle recurses without bound, and a file included along two paths is indexed twice")
 
+
+def include_targets(ck, prog, b, rule):
+    """shared with C07: the file recorded for (and queued from) an include statement is what resolve_include_file returned
+    for that statement in this walk - not an entry of a memo keyed by the include string (resolution depends on the
+    including file's directory) and not an entry of the previous walk's map (an IncludeId names a position, not a
+    statement)"""
+    n = 0
+    bad = []
+    for i, t in b.calls():
+        c = Body.callee(t) or ""
+        which = None
+        gargs = [g.get("ty") for g in (t["f"].get("args") or []) if isinstance(g, dict)]
+        if re.search(r"HashMap::<[^>]*>::insert$", c) and len(t["args"]) >= 3 and gargs[:2] == ["ide::file_system::IncludeId", "ide::file_system::FileId"]:
+            which = 2
+        elif re.search(r"VecDeque::<[^>]*>::(push_back|push_front)$", c) and len(t["args"]) >= 2 and gargs[:1] == ["ide::file_system::FileId"]:
+            which = 1
+        if which is None:
+            continue
+        vo = prov.origins(b, t["args"][which])
+        if which == 1 and all(x[0] == "arg" for x in vo):
+            continue                    # the root file entering the work list
+        n += 1
+        foreign = [x for x in vo if not (x[0] == "call" and str(x[1]).endswith("resolve_include_file"))]
+        if foreign:
+            bad.append((i, sorted(str(x[:2]) for x in foreign)))
+    ck.ob(rule, "include-target-source", not bad and n >= 2,
+          "%d sinks (include map / work list) receive only results of resolve_include_file" % n,
+          msg="collect_sources records or queues an include target that does not come from resolve_include_file for that "
+              "statement (%s): a memo keyed by the include string ignores the including file's directory, an entry kept from "
+              "an earlier walk belongs to whatever statement occupied that range then" % (
+                  "; ".join("[%s] from %s" % (b.where(i), o[:2]) for i, o in bad) or "no sink found"))
